@@ -98,3 +98,11 @@ def nil_bytes():
 
 def snoc_bytes(xs, b):
     return list(xs) + [bytes(b)]
+
+
+def cat_list(xs, ys):
+    return list(xs) + list(ys)
+
+
+def slice_list(xs, i, n):
+    return list(xs)[i:n]
